@@ -39,6 +39,7 @@ type c40Case struct {
 	C      int      `json:"c"`                // -1: keep what GenesisChainConfig computes (N/3)
 	Height uint32   `json:"height"`           // shuffle height of GenesisChainConfig
 	PosTab []uint32 `json:"postab,omitempty"` // table route: entries are peer positions (mod N)
+	Idx    []uint32 `json:"idx,omitempty"`    // governance index of the peer at each position (N distinct values); absent: 1..N
 	// previous block (build route)
 	BlkNum   uint32 `json:"blknum"`
 	Proposer uint32 `json:"prevproposer"`
@@ -77,6 +78,41 @@ func genSeed64() *rapid.Generator[[]byte] {
 	})
 }
 
+// genPeerIndexes draws the governance indexes of the N peers. Governance hands indexes out
+// sequentially and never reuses them, so an aged pool has large, sparse indexes: dense runs from an
+// arbitrary base (around 64, 128, 2^16, 2^31, the top of the range) and sparse sets mixing small,
+// boundary and arbitrary 32-bit values. 0xFFFFFFFF is the code's reserved "no peer" value.
+func genPeerIndexes(t *rapid.T, n int) []uint32 {
+	special := []uint32{0, 1, 31, 32, 33, 62, 63, 64, 65, 66, 100, 127, 128, 129, 255, 256, 1000, 1<<16 - 1, 1 << 16, 1<<16 + 1,
+		1<<31 - 1, 1 << 31, 1<<31 + 1, 1<<32 - 3, 1<<32 - 2}
+	switch rapid.SampledFrom([]string{"1..N", "dense-base", "dense-base", "sparse", "sparse", "sparse-small"}).Draw(t, "idxkind") {
+	case "1..N":
+		return nil
+	case "dense-base":
+		base := rapid.OneOf(rapid.SampledFrom(special), rapid.Uint32Range(40, 70), rapid.Uint32()).Draw(t, "idxbase")
+		if uint64(base)+uint64(n) > 1<<32-2 {
+			base = uint32(1<<32 - 2 - uint64(n))
+		}
+		out := make([]uint32, n)
+		for i := range out {
+			out[i] = base + uint32(i)
+		}
+		return out
+	case "sparse-small":
+		return rapid.SliceOfNDistinct(rapid.Uint32Range(0, 200), n, n, func(v uint32) uint32 { return v }).Draw(t, "idx")
+	}
+	one := rapid.OneOf(rapid.SampledFrom(special), rapid.Uint32Range(0, 200), rapid.Uint32Range(0, 1<<32-2))
+	return rapid.SliceOfNDistinct(one, n, n, func(v uint32) uint32 { return v }).Draw(t, "idx")
+}
+
+// idxOf is the governance index of the peer at position pos.
+func (c c40Case) idxOf(pos int) uint32 {
+	if len(c.Idx) == c.N {
+		return c.Idx[pos]
+	}
+	return pidx(pos)
+}
+
 func genC40(t *rapid.T) c40Case {
 	maxN := ev.Scale(40, 40)
 	c := c40Case{
@@ -93,6 +129,7 @@ func genC40(t *rapid.T) c40Case {
 	default:
 		c.C = rapid.IntRange(0, (c.N-1)/3).Draw(t, "c")
 	}
+	c.Idx = genPeerIndexes(t, c.N)
 	c.Height = rapid.OneOf(rapid.Uint32Range(0, 3), rapid.Uint32()).Draw(t, "height")
 	if c.Table == "table" {
 		if c.C < 0 {
@@ -129,7 +166,7 @@ func chainConfigC40(c c40Case, reversed bool) (*vconfig.ChainConfig, error) {
 	if c.Table == "genesis" {
 		peers := make([]*config.VBFTPeerInfo, c.N)
 		for i := range peers {
-			peers[i] = &config.VBFTPeerInfo{Index: pidx(i), PeerPubkey: world.PubHex(acct(i)), Address: acct(i).Address.ToBase58()}
+			peers[i] = &config.VBFTPeerInfo{Index: c.idxOf(i), PeerPubkey: world.PubHex(acct(i)), Address: acct(i).Address.ToBase58()}
 		}
 		conf := &config.VBFTConfig{BlockMsgDelay: 10000, HashMsgDelay: 10000, PeerHandshakeTimeout: 10, MaxBlockChangeView: 1000}
 		cfg, err := vconfig.GenesisChainConfig(conf, peers, c.Height)
@@ -142,6 +179,9 @@ func chainConfigC40(c c40Case, reversed bool) (*vconfig.ChainConfig, error) {
 		return cfg, nil
 	}
 	peers := peerConfigs(c.N)
+	for i := range peers {
+		peers[i].Index = c.idxOf(i)
+	}
 	if reversed {
 		for i, j := 0, len(peers)-1; i < j; i, j = i+1, j-1 {
 			peers[i], peers[j] = peers[j], peers[i]
@@ -149,7 +189,7 @@ func chainConfigC40(c c40Case, reversed bool) (*vconfig.ChainConfig, error) {
 	}
 	tab := make([]uint32, len(c.PosTab))
 	for i, p := range c.PosTab {
-		tab[i] = pidx(int(p) % c.N)
+		tab[i] = c.idxOf(int(p) % c.N)
 	}
 	return &vconfig.ChainConfig{Version: 1, View: 1, N: uint32(c.N), C: uint32(c.C), Peers: peers, PosTable: tab}, nil
 }
@@ -261,6 +301,26 @@ func runC40(ctx *ev.Ctx, c c40Case) {
 	}
 	ctx.Label("route:" + c.Route)
 	ctx.Label("table:" + c.Table)
+	{
+		seen, big := map[uint32]bool{}, false
+		for i := 0; i < c.N; i++ {
+			v := c.idxOf(i)
+			if seen[v] || v == math.MaxUint32 {
+				ctx.Label("skip:peer-indexes-not-distinct-or-reserved")
+				return
+			}
+			seen[v] = true
+			big = big || v >= 64
+		}
+		switch {
+		case len(c.Idx) != c.N:
+			ctx.Label("idx:1..N")
+		case big:
+			ctx.Label("idx:some>=64")
+		default:
+			ctx.Label("idx:arbitrary<64")
+		}
+	}
 	cfg, _ := chainConfigC40(c, false)
 	a := selectC40(ctx, c, 1, false)
 	b := selectC40(ctx, c, c.Index2, true)
@@ -313,7 +373,7 @@ func minInt(a, b int) int {
 
 func TestC40(t *testing.T) {
 	ev.Drive(t, "C40",
-		"cases: N=1..40 peers, C in {N/3 as GenesisChainConfig computes, (N-1)/3, smaller}; position table from the real GenesisChainConfig or an arbitrary (skewed / incomplete) table; "+
+		"cases: N=1..40 peers with governance indexes 1..N, dense from an arbitrary base (around 64, 2^16, 2^31, top of range) or sparse arbitrary 32-bit values; C in {N/3 as GenesisChainConfig computes, (N-1)/3, smaller}; position table from the real GenesisChainConfig or an arbitrary (skewed / incomplete) table; "+
 			"seed through the real getParticipantSelectionSeed of a generated previous block (buildParticipantConfig) or a raw 64-byte seed (uniform, constant, single-bit, low-entropy) fed to calcParticipantPeers. "+
 			"non-trivial: a selection was produced (no error) with C>=1, so minimum sizes, duplicate freedom and the exclusion of the leading proposers are all constraining; distinct by JSON encoding of the case",
 		genC40, runC40)
